@@ -20,7 +20,7 @@ RULE = ("Single-section tables in the default body font whose rows have an unamb
         "every cell well inside a k-line band), nrow 2-30, all header / footnote / source reservations, group-key "
         "sequences with 1-3 levels over a small alphabet (runs of every length, keys may return non-adjacently), "
         "plain / page_by (new_page on/off, pageby_row column/first_row) / subline_by. Exhaustive part: all height "
-        "vectors in {1,2,3}^n x all group-change patterns of length n (quick: n<=4 complete + every 4th of n=5; thorough: n<=6 complete + every 3rd of n=7), over a "
+        "vectors in {1,2,3}^n x all group-change patterns of length n (quick: n<=4 complete + every 4th of n=5; thorough: n<=7 complete, 167,961 cases), over a "
         "rotating set of (nrow, reservation, strategy). Oracle from the page membership of coordinate-tagged "
         "rows: (i) pages non-empty, contiguous, in order; (ii) a break is justified only if forced by a grouping "
         "rule or observed fill + need(next row incl. the headings it brings) > nrow - R (R = all configured "
@@ -100,8 +100,8 @@ def enumerate_cases(tier):
                 k += 1
                 if tier == "quick" and n == 5 and k % 4:
                     continue            # quick: n<=4 complete, n=5 every 4th
-                if tier == "thorough" and n == 7 and k % 3:
-                    continue            # thorough: n<=6 complete (28k cases), n=7 every 3rd (47k of 140k)
+                # thorough: n<=7 complete (168k cases); the prefix-stability re-encode is skipped for n=7 (it doubles
+                # the cost and is covered by n<=6 and the generated cases)
                 cfg = CONFIGS[k % len(CONFIGS)]
                 yield exhaustive_case(hv, pattern, cfg)
 
@@ -126,7 +126,7 @@ def exhaustive_case(hv, pattern, cfg):
     rec = pgen.make_table(list(hv), groups, ndata=1, subline=subline, page_by_levels=levels, new_page=new_page, pageby_row=pbr,
                           header=header, footnote=fn, source=src, nrow=nrow)
     rec["strategy"] = strat
-    rec["prefix"] = max(1, n - 1)
+    rec["prefix"] = max(1, n - 1) if n < 7 else 0
     return rec
 
 
